@@ -9,6 +9,8 @@ use serde_crate::{Deserialize, Serialize};
 mod algorithm;
 mod error;
 mod hyperparams;
+#[cfg(linfa_verif)]
+pub use algorithm::verif_hooks_c11;
 
 pub use error::{ElasticNetError, Result};
 pub use hyperparams::{
